@@ -19,7 +19,7 @@ import (
 	"github.com/flamego/flamego/verifharness/internal/rt"
 )
 
-const rule = "case = a registration program: a tree of Group(path, handlers, body) nested up to 7 deep (empty, static and dynamic group paths, 0..2 group handlers), containing Get..Trace, Route, Any, Routes (comma list with blanks and lower case / several method strings), Combo (common handlers + 1..4 methods) and AutoHead(v) calls anywhere (also with the value it has); handler lists are passed as fresh variadics or as sub-slices with spare capacity. Route paths are distinct by construction (except that a second Combo call may declare further methods of the same route); a group with a static path of its own may also declare its own route with the empty path. After the program, optionally: a nested declaration whose pieces are harmless but whose concatenation the router must refuse (then a route at the top level, which must be reachable), and a Get under AutoHead on a path whose GET or HEAD is taken. " +
+const rule = "case = a registration program: a tree of Group(path, handlers, body) (now and then with the path of an earlier group of the same level and a handler list of its own; now and then with a child whose own path spells the whole prefix of the groups around it once more) nested up to 7 deep (empty, static and dynamic group paths, 0..2 group handlers), containing Get..Trace, Route, Any, Routes (comma list with blanks and lower case / several method strings), Combo (common handlers + 1..4 methods) and AutoHead(v) calls anywhere (also with the value it has); handler lists are passed as fresh variadics or as sub-slices with spare capacity. Route paths are distinct by construction (except that a second Combo call may declare further methods of the same route); a group with a static path of its own may also declare its own route with the empty path. After the program, optionally: a nested declaration whose pieces are harmless but whose concatenation the router must refuse (then a route at the top level, which must be reachable), and a Get under AutoHead on a path whose GET or HEAD is taken. " +
 	"Oracle: an own flatten(program) = list of (method, full path, handler ids, outer group first). Flame P is built from the program, Flame Q from the flat list with Route(method, path, handlers); for every registered path x all nine methods and two unknown ones the handler-id trace and the parameters of P must equal those of Q and flatten's expectation. Also (own property): a Combo with 1..5 methods, inside a group or not, must refuse any of them a second time - also when the repeat is made inside another group - and keep serving all of them with their first handlers. The refused declarations must be refused like their flat expansions and leave standing exactly what those leave standing. " +
 	"non-trivial = a program with nesting depth >= 2, or a Combo with >= 2 methods, or an AutoHead toggle between two GET routes, or sibling routes inside a nested group with group handlers; distinct by case text"
 
@@ -759,8 +759,9 @@ func (g *gstate) routePath(t *rapid.T) string {
 	return p
 }
 
-func (g *gstate) nodes(t *rapid.T, depth int, own string, bare bool) []Node {
+func (g *gstate) nodes(t *rapid.T, depth int, own string, bare bool, prefix string) []Node {
 	var out []Node
+	var seenGP []string // static group paths used at this level so far
 	n := rapid.IntRange(1, 4).Draw(t, "nnodes")
 	// once per group with a path of its own: the route of the group itself,
 	// declared with the empty path
@@ -791,6 +792,10 @@ func (g *gstate) nodes(t *rapid.T, depth int, own string, bare bool) []Node {
 		p := g.routePath(t)
 		if bare {
 			p = p[1:]
+		} else if prefix != "" && !strings.Contains(prefix, "{") && !strings.HasSuffix(prefix, "/") && rapid.IntRange(0, 7).Draw(t, "repeatprefix") == 0 {
+			// a child whose own path spells the whole prefix of the groups around
+			// it once more (built from the same constant, say): concatenated all the same
+			p = prefix + p
 		}
 		return p
 	}
@@ -821,12 +826,21 @@ func (g *gstate) nodes(t *rapid.T, depth int, own string, bare bool) []Node {
 					}
 				}
 			}
+			again := false
+			if len(seenGP) > 0 && rapid.IntRange(0, 3).Draw(t, "samegroup") == 0 {
+				// the path of an earlier group of this level once more, with a handler
+				// list of its own (an open and a guarded part of one API, say)
+				gp = seenGP[rapid.IntRange(0, len(seenGP)-1).Draw(t, "whichgroup")]
+				again = true
+			} else if gp != "" && !strings.Contains(gp, "{") {
+				seenGP = append(seenGP, gp)
+			}
 			node := Node{K: "group", Path: gp, H: rapid.IntRange(0, 2).Draw(t, "gh"), Spare: spare}
 			own := gp
-			if strings.Contains(gp, "{") {
-				own = "" // two such groups side by side would differ in the bind name only
+			if strings.Contains(gp, "{") || again {
+				own = "" // two such groups side by side would differ in the bind name only / would declare the group's own routes twice
 			}
-			node.Children = g.nodes(t, depth+1, own, strings.HasSuffix(gp, "/"))
+			node.Children = g.nodes(t, depth+1, own, strings.HasSuffix(gp, "/"), prefix+gp)
 			out = append(out, node)
 		case k < 5:
 			out = append(out, Node{K: "method", Path: routePath(), Methods: []string{"GET"}, H: rapid.IntRange(0, 2).Draw(t, "h"), Spare: spare})
@@ -907,7 +921,7 @@ func pickDistinct(t *rapid.T, pool []string, n int) []string {
 func TestProp(t *testing.T) {
 	evid.Rapid(t, "program", 2000, 30000, func(t *rapid.T) {
 		g := &gstate{}
-		c := Case{Program: g.nodes(t, 0, "", false)}
+		c := Case{Program: g.nodes(t, 0, "", false, "")}
 		if rapid.IntRange(0, 5).Draw(t, "badjoin") == 0 {
 			c.BadJoin = rapid.IntRange(1, 3).Draw(t, "badjoink")
 		}
